@@ -533,7 +533,9 @@ class Macro(Element):
         """
         # If there was a '*', unset the counter for this instance
         if arg.index == 0 and arg.name == '*modifier*':
-            if value:
+            # (a macro that has no counter stays without one: it is not
+            # the object a following \label refers to)
+            if value and self.counter is not None:
                 self.counter = ''
             self.refstepcounter(tex)
 
